@@ -196,6 +196,28 @@ CHECKS = {
         "unsendable upstream metas",
         "DESIGN.md §2 C18",
     ),
+    "C09": (
+        "exploration",
+        "Hypothesis-generated policies x boundary/random/malformed peers at four layers (object, ServerConfig, TOML, "
+        "start_server assembly); independent integer-arithmetic oracle; exhaustive invalid-entry enumeration",
+        "Decisions for addresses on and next to every configured network boundary (IPv4/IPv6, every prefix length) are "
+        "compared with an oracle computed on inet_pton integers, at the AccessControl object, through ServerConfig and a "
+        "TOML file, and on the running start_server assembly where 53 is read off the wire for an arbitrary transport "
+        "peer address; every uninterpretable list entry must prevent construction/start-up at every layer.",
+        "grey: empty allow list, scoped and IPv4-mapped IPv6 peers, malformed peers under a trivial policy",
+        "DESIGN.md §2 C09",
+    ),
+    "C10": (
+        "exploration",
+        "exhaustive small-scope arrival histories + Hypothesis long histories under a virtual clock; exact Fraction "
+        "token-bucket model (no clean-up), window-bound invariant, isolation metamorphic relation",
+        "The real RateLimiter (with its clean-up task) runs under a virtual clock; every decision is compared step by "
+        "step with an exact-arithmetic token bucket that has no clean-up, the admitted timestamps of every address must "
+        "satisfy count <= capacity + rate x T for every window, removing other addresses' traffic must not change an "
+        "address's decisions, and refusals must be 44 with the retry hint.",
+        "float-vs-exact boundary steps (|tokens-1| < 1e-6 and not provably exact) are grey",
+        "DESIGN.md §2 C10",
+    ),
 }
 
 PENDING_REASON = "check not built yet in this round (work in progress; technique applies, see DESIGN.md)"
